@@ -16,6 +16,12 @@ REGISTRY = {
     "C02": ("checks_core", "check_c02"),
     "C03": ("checks_core", "check_c03"),
     "C04": ("checks_core", "check_c04"),
+    "C05": ("checks_sess", "check_c05"),
+    "C06": ("checks_sess", "check_c06"),
+    "C09": ("checks_sess", "check_c09"),
+    "C10": ("checks_sess", "check_c10"),
+    "C15": ("checks_sess", "check_c15"),
+    "C19": ("checks_sess", "check_c19"),
     "C07": ("checks_fec", "check_c07"),
     "C16": ("checks_fec", "check_c16"),
     "C12": ("checks_core", "check_c12"),
